@@ -34,20 +34,24 @@ def cases(draw, prof, p_fresh):
     from props import c06
 
     n = draw(st.integers(2, 3))
-    projs = [draw(c06.cases(prof)) for _ in range(n)]  # {"spec": ModelSpec, "scen": parameter scenario or None}
+    fresh = draw(st.integers(1, 1000)) <= int(p_fresh * 1000)
+    # the project that is re-run in fresh processes (other hash seeds) is drawn wide: several populations, transfers from several
+    # sources into one destination, interactions - anything whose order could come from a set or dict keyed by strings
+    wide = dict(prof, max_pops=4, p_transfer=0.9, p_interaction=0.7)
+    projs = [draw(c06.cases(wide if (fresh and k == 0) else prof)) for k in range(n)]  # {"spec": ModelSpec, "scen": parameter scenario or None}
     specs = [pr["spec"] for pr in projs]
     scens = [pr["scen"] for pr in projs]
     # some projects carry an explicit, partial initialization (values for only some compartments; the rest start empty)
     partial = [draw(st.sampled_from([None, None, 0.3, 0.7])) for _ in range(n)]
     ops = draw(st.lists(st.tuples(st.sampled_from(OPS), st.integers(0, n - 1)), min_size=3, max_size=8))
-    return {"specs": specs, "scens": scens, "partial_init": partial, "ops": [list(o) for o in ops], "fresh": draw(st.integers(1, 1000)) <= int(p_fresh * 1000)}
+    return {"specs": specs, "scens": scens, "partial_init": partial, "ops": [list(o) for o in ops], "fresh": fresh}
 
 
 def strategy(tier):
     prof = dict(PROFILE)
     if tier == "thorough":
         prof.update(max_steps=30, max_pops=3)
-    return cases(prof, 0.04 if tier == "quick" else 0.2)
+    return cases(prof, 0.10 if tier == "quick" else 0.2)
 
 
 def inputs_canon(b):
@@ -196,6 +200,14 @@ def check(case):
         labels.add("fresh-process")
         spec = case["specs"][0]
         ref = pool[0]["ref"]
+        if ref is None:
+            # project 0 was not run (with its programs) by the drawn operations: run it now so that the fresh processes have a reference
+            try:
+                b0 = pool[0]["b"]
+                res0, _ = simcase.two_step(b0["P"], b0["ps"], b0["progset"], b0["instructions"])
+                ref = canon.result_digest(res0)
+            except Exception:
+                ref = None
         if ref is not None:
             scratch = os.environ.get("VERIF_SCRATCH") or tempfile.gettempdir()
             fn = os.path.join(scratch, "c08_%d.json" % os.getpid())
